@@ -107,6 +107,7 @@ template<> struct Bnd<double> {
 };
 template<class R> inline R rnd_bits(vt::Rng& r) { uint64_t w = r.next(); R v; memcpy(&v, &w, sizeof(R)); return v; }
 
+static uint64_t g_seed = 1;       // VERIF_SEED: all operand data derive from (seed, case id)
 enum Mode { SMALL = 0, BITS = 1 };
 // guard-page cases: a masked access that touches a disabled lane faults; the fault is caught and RECORDED (out.fault = 1)
 static sigjmp_buf g_jb; static volatile int g_faulted = 0; static struct sigaction g_old_segv, g_old_bus;
@@ -208,7 +209,7 @@ template<class T, class ABI> struct K {
         if (aligned) off = 0;
         cid = std::string(id) + "/" + std::to_string(it);
         vt::g_cur_case = cid.c_str();
-        vt::Rng r(vt::hash_str(cid.c_str()));
+        vt::Rng r(vt::hash_str(cid.c_str()) ^ (g_seed * 0x9E3779B97F4A7C15ull));
         for (size_t i = 0; i < N; ++i) A[i] = GenT<T>::one(r, mode, gen, range, sc, 0, (int)i);
         for (size_t i = 0; i < N; ++i) B[i] = GenT<T>::one(r, mode, gen, range, sc, 1, (int)i);
         for (size_t i = 0; i < N; ++i) C[i] = GenT<T>::one(r, mode, gen, range, sc, 2, (int)i);
@@ -517,6 +518,7 @@ def case_id(c):
     return "simd/%s/%s/%s/%s/%s%d" % (c["T"], abi_name(c), c["op"], c["form"], c["mode"], c["sc"])
 
 
+SWEEP_HOME = {"sse": ("sse2-14-O2", "sse42-14-O2"), "avx": ("avx2-14-O2",), "avx512": ("avx512-14-O2",), "fixed": ("sse2-14-O2", "avx2-14-O3")}
 SWEEP = {"neg": ("-a", "wneg(x)"), "abs": ("abs(a)", "wabs(x)"), "sqrt": ("sqrt(a)", "wsqrt(x)")}
 
 
@@ -615,24 +617,28 @@ class C08(Check):
         groups = {}
         for c in plan:
             if c["abi"] in ISA_ABIS[isa]:
-                groups.setdefault((c["T"], abi_name(c)), []).append(c)
-        units, per = [], 90  # ~28 ms per case on top of ~2 s for the headers
-        main = "\nint main(int argc, char** argv) {\n    vt::open(argc, argv, \"%s\");\n    vt::install_handlers();\n    case_0();\n    vt::close_ok();\n    return 0;\n}\n" % cfgname
-        for (T, ab), cs in sorted(groups.items()):
+                groups.setdefault(c["T"], []).append(c)
+        # one element type per TU (K<T,ABI> is shared by all cases of a pair); ~28 ms per case on top of ~2 s for the headers
+        units, per = [], 140
+        main = "\nint main(int argc, char** argv) {\n    vt::open(argc, argv, \"%s\");\n    vt::install_handlers();\n    c08::g_seed = %dull;\n%%s\n    vt::close_ok();\n    return 0;\n}\n" % (cfgname, ctx.seed)
+        for T, cs in sorted(groups.items()):
             for c in [c for c in cs if c["form"] == "sweep"]:        # one unit per sweep (tens of seconds each): they run in parallel
-                units.append(("sw_%s_%s_%s" % (T, ab, c["op"]), PRELUDE + block(c, 0) + main, []))
-            cs[:] = [c for c in cs if c["form"] != "sweep"]
-        for (T, ab), cs in sorted(groups.items()):
-            cs.sort(key=lambda c: (c["form"] == "gp", c["case"]))       # guard-page cases last: a fault ends the binary
+                if cfgname not in SWEEP_HOME[c["abi"]]:               # a sweep exercises one specialisation: run it where that specialisation is native
+                    continue
+                units.append(("sw_%s_%s_%s" % (T, abi_name(c), c["op"]), PRELUDE + block(c, 0) + main % "    case_0();", []))
+            cs = [c for c in cs if c["form"] != "sweep"]
+            cs.sort(key=lambda c: (c["form"] == "gp", abi_name(c), c["case"]))       # guard-page cases last
+            seen = set()
             for ci in range(0, len(cs), per):
                 ch = cs[ci:ci + per]
-                src = PRELUDE + "\n".join(block(c, i) for i, c in enumerate(ch))
-                src += "\nint main(int argc, char** argv) {\n    vt::open(argc, argv, \"%s\");\n    vt::install_handlers();\n" % cfgname
-                if ci == 0 and any(c["op"] == "mstore" for c in cs):
-                    src += '    c08::meta_maskbits<%s,%s>("%s","%s","%s");\n' % (CXX_T[T], abi_cxx(cs[0]), T, cs[0]["abi"], ab)
-                src += "\n".join("    case_%d();" % i for i in range(len(ch)))
-                src += "\n    vt::close_ok();\n    return 0;\n}\n"
-                units.append(("sv_%s_%s_%02d" % (T, ab, ci // per), src, []))
+                body = []
+                for c in ch:                                                         # L2 binding record, once per (T, ABI) that has masked stores
+                    if c["op"] == "mstore" and abi_name(c) not in seen:
+                        seen.add(abi_name(c))
+                        body.append('    c08::meta_maskbits<%s,%s>("%s","%s","%s");' % (CXX_T[T], abi_cxx(c), T, c["abi"], abi_name(c)))
+                body += ["    case_%d();" % i for i in range(len(ch))]
+                src = PRELUDE + "\n".join(block(c, i) for i, c in enumerate(ch)) + main % "\n".join(body)
+                units.append(("sv_%s_%02d" % (T, ci // per), src, []))
         return units
 
     def event_weight(self, ev):
